@@ -313,13 +313,38 @@ def h_write_season(ctx):
         ctx.check("written zone name is the zone's name at that date", name == want_name)
 
 
-def h_write_naive(ctx, kind):
+class NoOffsetTz(datetime.tzinfo):
+    """a tzinfo that knows no offset: values carrying it are naive by python's definition"""
+
+    def utcoffset(self, dt):
+        return None
+
+    def tzname(self, dt):
+        return "X"
+
+    def dst(self, dt):
+        return None
+
+
+class ZoneLikeTz(SeasonTz):
+    """like zoneinfo / dateutil zones: no offset without a date, so a bare time carrying it is naive"""
+
+    def utcoffset(self, dt):
+        if dt is None:
+            return None
+        return SeasonTz.utcoffset(self, dt)
+
+
+def h_write_naive(ctx, kind, zone=None):
+    tz = None if zone is None else (NoOffsetTz() if zone == "nooffset" else ZoneLikeTz())
     if kind == "dt":
         v = ctx.datetime("v", 1900, 2200, None)
         conv = Types.DateTime()
     else:
         v = ctx.time("v", None)
         conv = Types.Time()
+    if tz is not None:
+        v = v.replace(tzinfo=tz)
     raised = False
     try:
         conv.unconvert(v)
@@ -452,8 +477,10 @@ def instances(tier, seed):
         for named in ((None, 0, 2) if tier == "quick" else (None, 0, 1, 3)):
             mk(f"write:{kind}:name={named}", "write", dict(kind=kind, named=named), timeout_ms=30000)
         mk(f"write_naive:{kind}", "write_naive", dict(kind=kind))
+        mk(f"write_naive:{kind}:tzinfo without offset", "write_naive", dict(kind=kind, zone="nooffset"))
         if tier != "quick":
             mk(f"roundtrip:{kind}", "roundtrip", dict(kind=kind, named=None), timeout_ms=60000, wall_s=1200)
+    mk("write_naive:time:zone without offset for bare times", "write_naive", dict(kind="time", zone="zonelike"))
     mk("gmt_offset", "gmt_offset", {})
     mk("write_season", "write_season", {}, timeout_ms=30000)
     return out
